@@ -59,7 +59,7 @@ def run(ctx):
     base = ('INIT Init\nNEXT Next\nCONSTANTS Part = "%s" NChunks = 32 Dense = %s\n'
             'INVARIANTS LiInv LdInv Emit\nCHECK_DEADLOCK FALSE\n')
     parts = [(p, base % (p, 'TRUE' if dense else 'FALSE')) for p in ('li', 'ld')]
-    nrec = 30000 if ctx.quick else 400000
+    nrec = 30000 if ctx.quick else 800000
     rows, traces = vlib.lattice_pipeline(ctx, 'MC_Rhumb', parts, to_rows(dense), 'drv_rhumb', ['replay'],
                                          ['record', ctx.seed, nrec], 'Trace_Rhumb',
                                          flavour_record=None if ctx.quick else 'san', min_vectors=1000)
